@@ -43,7 +43,7 @@ theorem dot_append (a1 a2 x1 x2 : List ℚ) (h : a1.length = x1.length) :
 theorem dot_replicate_one (x : List ℚ) (n : ℕ) (h : n = x.length) : dot (List.replicate n 1) x = sumL x := by
   subst h; exact dot_ones x
 
-theorem dot_zeros' (x : List ℚ) (n : ℕ) : dot (zeros n) x = 0 := dot_zeros n x
+theorem dot_zeros_left (x : List ℚ) (n : ℕ) : dot (zeros n) x = 0 := dot_zeros n x
 
 /-- **Island balance**: with the column-sum pattern of a network matrix (every line leaves one
 bus and enters another, so its column cancels), total shed + total generation + N·slack = total demand. -/
@@ -55,7 +55,7 @@ theorem island_balance (p : LP) (nd nl : ℕ) (sh fl ge : List ℚ) (a : ℚ)
   have := balance p _ hx
   rw [hpat] at this
   rw [dot_append _ _ _ _ (by simp [zeros, hsh, hfl, hge]), dot_append _ _ _ _ (by simp [zeros, hsh, hfl]),
-    dot_append _ _ _ _ (by simp [hsh]), dot_replicate_one sh nd hsh.symm, dot_zeros', dot_replicate_one ge nd hge.symm] at this
+    dot_append _ _ _ _ (by simp [hsh]), dot_replicate_one sh nd hsh.symm, dot_zeros_left, dot_replicate_one ge nd hge.symm] at this
   simp only [dot] at this
   linarith
 
